@@ -168,7 +168,7 @@ def gen_jobs(ctx):
 
     quick = ctx.quick()
     # 1. exhaustive over the small alphabet (prefixes are covered by the checkpoints of step mode)
-    alpha = SMALL[:6] if quick else SMALL[:10]
+    alpha = SMALL[:6] if quick else SMALL[:9]
     depth = 2 if quick else 3
     seqs = [[]]
     for _ in range(depth):
@@ -430,17 +430,25 @@ def evaluate(ctx, binary, cases):
     empty_rules = [{'nonagg': [], 'agg': []} for _ in CONFIGS]
     cdefs = [ccase(ids, c) for c in cases]
     div = [diverged(c) for c in cases]
-    # ---- pass 1: keys
+    # ---- pass 1: keys (cases are evaluated in chunks: one huge list literal overflows Coq's stack)
+    CH = int(os.environ.get('VERIF_CHUNK', '200'))
     v = list(hdr)
     v.append('Definition TB := %s.' % ctables(ids, parses, {}, {}, {}, empty_rules))
-    v.append('Definition cases : list (bool * c15_case) := %s.' % clist('(%s, %s)' % (cbool(d), cd) for d, cd in zip(div, cdefs)))
-    v.append('Definition K1 := Eval vm_compute in flat_map (fun p => keys_of_case TB (fst p) (snd p)) cases.')
-    v.append('Print K1.')
-    rc, out = vlib.coq_eval(ctx, 'Keys_C15', '\n'.join(v))
+    nch = (len(cases) + CH - 1) // CH
+    for ci in range(nch):
+        sl = slice(ci * CH, (ci + 1) * CH)
+        v.append('Definition cases%d : list (bool * c15_case) := %s.' % (
+            ci, clist('(%s, %s)' % (cbool(d), cd) for d, cd in zip(div[sl], cdefs[sl]))))
+        v.append('Definition K1_%d := Eval vm_compute in flat_map (fun p => keys_of_case TB (fst p) (snd p)) cases%d.' % (ci, ci))
+        v.append('Print K1_%d.' % ci)
+    rc, out = vlib.coq_eval(ctx, 'Keys_C15', '\n'.join(v), timeout=1800)
     if rc != 0:
         raise RuntimeError('C15 key discovery failed:\n' + out[-3000:])
     tick(ctx, 'coq pass 1 (oracle keys)')
-    markers = sorted(set(coq_list_of_N(out, 'K1') or []))
+    markers = set()
+    for ci in range(nch):
+        markers.update(coq_list_of_N(out, 'K1_%d' % ci) or [])
+    markers = sorted(markers)
     fkeys, akeys = set(), {}
     for p in markers:
         d = decode_marker(p)
@@ -496,20 +504,29 @@ def evaluate(ctx, binary, cases):
     # ---- pass 2
     v = list(hdr)
     v.append('Definition TB := %s.' % ctables(ids, parses, perr, fd, ar, rules))
-    v.append('Definition cases : list c15_case := %s.' % clist(cdefs))
-    v.append('Definition dcases : list c15_case := %s.' % clist(cd for d, cd in zip(div, cdefs) if d))
-    v.append('Definition R1 := Eval vm_compute in failing (agrees_model TB) 0 cases.')
-    v.append('Definition R2 := Eval vm_compute in failing (agrees_fresh TB) 0 cases.')
-    v.append('Definition R3 := Eval vm_compute in map (attribution TB) dcases.')
-    v.append('Definition R4 := Eval vm_compute in failing converged 0 cases.')
-    v.append('Print R1. Print R2. Print R3. Print R4.')
-    rc, out = vlib.coq_eval(ctx, 'Cases_C15', '\n'.join(v))
+    dcd = [cd for d, cd in zip(div, cdefs) if d]
+    for ci in range(nch):
+        sl = slice(ci * CH, (ci + 1) * CH)
+        v.append('Definition cases%d : list c15_case := %s.' % (ci, clist(cdefs[sl])))
+        v.append('Definition R1_%d := Eval vm_compute in failing (agrees_model TB) %d cases%d.' % (ci, ci * CH, ci))
+        v.append('Definition R2_%d := Eval vm_compute in failing (agrees_fresh TB) %d cases%d.' % (ci, ci * CH, ci))
+        v.append('Definition R4_%d := Eval vm_compute in failing converged %d cases%d.' % (ci, ci * CH, ci))
+        v.append('Print R1_%d. Print R2_%d. Print R4_%d.' % (ci, ci, ci))
+    ndch = (len(dcd) + CH - 1) // CH
+    for ci in range(ndch):
+        v.append('Definition dcases%d : list c15_case := %s.' % (ci, clist(dcd[ci * CH:(ci + 1) * CH])))
+        v.append('Definition R3_%d := Eval vm_compute in map (attribution TB) dcases%d.' % (ci, ci))
+        v.append('Print R3_%d.' % ci)
+    rc, out = vlib.coq_eval(ctx, 'Cases_C15', '\n'.join(v), timeout=1800)
     if rc != 0:
         raise RuntimeError('C15 case evaluation failed:\n' + out[-3000:])
-    r1 = vlib.parse_nat_list(out, 'R1') or []
-    r2 = vlib.parse_nat_list(out, 'R2') or []
-    r3 = coq_list_of_N(out, 'R3') or []
-    r4 = vlib.parse_nat_list(out, 'R4') or []
+    r1, r2, r3, r4 = [], [], [], []
+    for ci in range(nch):
+        r1 += vlib.parse_nat_list(out, 'R1_%d' % ci) or []
+        r2 += vlib.parse_nat_list(out, 'R2_%d' % ci) or []
+        r4 += vlib.parse_nat_list(out, 'R4_%d' % ci) or []
+    for ci in range(ndch):
+        r3 += coq_list_of_N(out, 'R3_%d' % ci) or []
     didx = [i for i, d in enumerate(div) if d]
     if sorted(r4) != didx:
         raise RuntimeError('python and Coq disagree on which cases diverge: %r vs %r' % (r4[:10], didx[:10]))
